@@ -75,7 +75,9 @@ MACROS == {"defun", "defmacro"}
 FUNS   == {"+", "-", "*", "=", "<", ">", "<=", ">=", "not", "list", "cons", "car", "cdr", "first", "rest",
            "length", "identity", "nil?", "set", "funcall", "apply", "error", "rethrow", "probe", "boom",
            "load-string", "in-package", "use-package", "export", "capture",
-           "macroexpand", "macroexpand-1", "eval", "gensym", "equal?"}
+           "macroexpand", "macroexpand-1", "eval", "gensym", "equal?",
+           "map", "foldl", "foldr", "select", "reject", "any?", "all?", "nth", "second", "append", "concat", "reverse", "empty?",
+           "mod", "max", "min", "list?", "int?", "symbol?", "true?"}
 BuiltinKind(name) == IF name \in OPS THEN "op" ELSE IF name \in MACROS THEN "macro" ELSE "fun"
 BuiltinFID(v) == IF v.p = "op" THEN "<special-op ``" \o v.s \o "''>"
                  ELSE IF v.p = "macro" THEN "<builtin-macro ``" \o v.s \o "''>"
@@ -86,6 +88,11 @@ BuiltinFID(v) == IF v.p = "op" THEN "<special-op ``" \o v.s \o "''>"
 Arity(name) ==
   CASE name \in {"not", "car", "cdr", "first", "rest", "length", "identity", "nil?", "quote", "quasiquote", "macroexpand", "macroexpand-1", "eval"} -> <<1, 1>>
     [] name = "gensym" -> <<0, 0>>
+    [] name \in {"second", "empty?", "list?", "int?", "symbol?", "true?"} -> <<1, 1>>
+    [] name \in {"nth", "mod", "any?", "all?", "reverse"} -> <<2, 2>>
+    [] name \in {"map", "foldl", "foldr", "select", "reject"} -> <<3, 3>>
+    [] name \in {"max", "min", "concat"} -> <<1, -1>>
+    [] name = "append" -> <<2, -1>>
     [] name = "equal?" -> <<2, 2>>
     [] name \in {"=", "<", ">", "<=", ">=", "cons"} -> <<2, 2>>
     [] name = "if" -> <<3, 3>>
@@ -339,7 +346,16 @@ BindReq(fs, as, acc) ==
        ELSE [ok |-> TRUE, vars |-> [x \in DOMAIN acc \cup {fs[2].s} |-> IF x = fs[2].s THEN VQList(as) ELSE acc[x]]]
   ELSE IF f.s = "&optional"
   THEN IF Len(fs) = 1 THEN [ok |-> FALSE, vars |-> acc] ELSE BindOpt(Rest(fs), as, acc)
-  ELSE IF f.s = "&key" THEN [ok |-> FALSE, vars |-> acc]      \* keyword parameters: Bind.tla (C19); not in this machine's programs
+  ELSE IF f.s = "&key"
+  THEN LET ks == Rest(fs)  np == Len(as) \div 2 IN
+       IF Len(ks) = 0 \/ (\E j \in 1..Len(ks) : IsCtl(ks[j])) THEN [ok |-> FALSE, vars |-> acc]
+       ELSE IF Len(as) % 2 # 0 THEN [ok |-> FALSE, vars |-> acc]                         \* odd number of keyword arguments
+       ELSE IF \E j \in 1..np : ~(as[2 * j - 1].t = "sym" /\ as[2 * j - 1].p = ":") THEN [ok |-> FALSE, vars |-> acc]   \* not a keyword
+       ELSE IF \E j \in 1..np : \A i \in 1..Len(ks) : ks[i].s # as[2 * j - 1].s THEN [ok |-> FALSE, vars |-> acc]      \* unrecognized keyword
+       ELSE LET val(name) == LET js == {j \in 1..np : as[2 * j - 1].s = name} IN
+                             IF js = {} THEN VNil ELSE as[2 * (CHOOSE j \in js : \A j2 \in js : j2 <= j)]
+                names == {ks[i].s : i \in 1..Len(ks)} IN
+            [ok |-> TRUE, vars |-> [x \in DOMAIN acc \cup names |-> IF x \in names THEN val(x) ELSE acc[x]]]
   ELSE IF Len(as) = 0 THEN [ok |-> FALSE, vars |-> acc]
   ELSE BindReq(Rest(fs), Rest(as), [x \in DOMAIN acc \cup {f.s} |-> IF x = f.s THEN as[1] ELSE acc[x]])
 BindOpt(fs, as, acc) ==
@@ -360,6 +376,13 @@ RECURSIVE ProdSeq(_)
 ProdSeq(a) == IF Len(a) = 0 THEN 1 ELSE a[1].n * ProdSeq(Rest(a))
 Cmp(name, a, b) == CASE name = "=" -> a = b [] name = "<" -> a < b [] name = ">" -> a > b
                      [] name = "<=" -> a <= b [] name = ">=" -> a >= b
+
+\* Go's % (truncated towards zero)
+GoMod(x, y) == LET ax == IF x < 0 THEN 0 - x ELSE x  ay == IF y < 0 THEN 0 - y ELSE y  r == ax % ay IN IF x < 0 THEN 0 - r ELSE r
+RECURSIVE SeqMax(_)
+SeqMax(a) == IF Len(a) = 1 THEN a[1].n ELSE LET r == SeqMax(Rest(a)) IN IF a[1].n > r THEN a[1].n ELSE r
+RECURSIVE FlatCells(_)
+FlatCells(ls) == IF Len(ls) = 0 THEN <<>> ELSE ls[1].c \o FlatCells(Rest(ls))
 
 \* equal?: structural equality of data (quoting flags and source positions ignored)
 RECURSIVE ValEqual(_, _)
@@ -384,12 +407,29 @@ PureBuiltin(name, a) ==
     [] name = "not" -> good(VBool(~Truthy(a[1])))
     [] name = "nil?" -> good(VBool(IsNilV(a[1])))
     [] name = "identity" -> good(a[1])
-    [] name = "list" -> good(IF n = 0 THEN VNil ELSE VQList(a))
+    [] name = "list" -> good(VQList(a))             \* QExpr over the argument array: (list) is a quoted empty list
     [] name = "cons" -> IF a[2].t = "list" THEN good(VQList(<<a[1]>> \o a[2].c)) ELSE bad
     [] name \in {"car", "first"} -> IF a[1].t # "list" THEN bad ELSE IF Len(a[1].c) = 0 THEN good(VNil) ELSE good(a[1].c[1])
     [] name \in {"cdr", "rest"} -> IF a[1].t # "list" THEN bad ELSE IF Len(a[1].c) <= 1 THEN good(VNil) ELSE good(VQList(Rest(a[1].c)))
     [] name = "length" -> IF a[1].t = "list" THEN good(VInt(Len(a[1].c))) ELSE bad
     [] name = "equal?" -> good(VBool(ValEqual(a[1], a[2])))
+    [] name = "second" -> IF a[1].t # "list" THEN bad ELSE IF Len(a[1].c) < 2 THEN good(VNil) ELSE good(a[1].c[2])
+    [] name = "nth" -> IF a[1].t # "list" \/ a[2].t # "int" \/ a[2].n < 0 THEN bad
+                       ELSE IF Len(a[1].c) <= a[2].n THEN good(VNil) ELSE good(a[1].c[a[2].n + 1])
+    [] name = "empty?" -> IF a[1].t \in {"list", "str"} THEN good(VBool(IF a[1].t = "list" THEN Len(a[1].c) = 0 ELSE a[1].s = "")) ELSE bad
+    [] name = "list?" -> good(VBool(a[1].t = "list"))
+    [] name = "int?" -> good(VBool(a[1].t = "int"))
+    [] name = "symbol?" -> good(VBool(a[1].t = "sym"))
+    [] name = "true?" -> good(VBool(Truthy(a[1])))
+    [] name = "mod" -> IF IntArgs(a) /\ a[2].n # 0 THEN good(VInt(GoMod(a[1].n, a[2].n))) ELSE bad
+    [] name = "max" -> IF IntArgs(a) THEN good(VInt(SeqMax(a))) ELSE bad
+    [] name = "min" -> IF IntArgs(a) THEN good(VInt(0 - SeqMax([j \in 1..n |-> VInt(0 - a[j].n)]))) ELSE bad
+    [] name = "reverse" -> IF a[1].t # "sym" \/ a[1].s # "list" \/ a[2].t # "list" THEN bad
+                           ELSE good(VQList([j \in 1..Len(a[2].c) |-> a[2].c[Len(a[2].c) + 1 - j]]))
+    [] name = "concat" -> IF a[1].t # "sym" \/ a[1].s # "list" \/ (\E j \in 2..n : a[j].t # "list") THEN bad
+                          ELSE LET all == FlatCells(Rest(a)) IN good(IF Len(all) = 0 THEN VNil ELSE VQList(all))
+    [] name = "append" -> IF a[1].t # "sym" \/ a[1].s # "list" \/ a[2].t # "list" THEN bad
+                          ELSE good(VQList(a[2].c \o SubSeq(a, 3, n)))
     [] OTHER -> bad
 
 PopCall(s) == [s EXCEPT !.frames = Pop(@), !.k = Pop(@)]
@@ -515,6 +555,21 @@ DoCall(s) ==
     [] f.s = "export" ->
          IF ExportNames(args).ok THEN [s EXCEPT !.pkgs[s.pkg].exports = @ \cup ExportNames(args).names, !.ctl = Ret(VNil)]
          ELSE Fail([s EXCEPT !.pkgs[s.pkg].exports = @ \cup ExportNames(args).names], env)
+    [] f.s \in {"map", "foldl", "foldr", "select", "reject", "any?", "all?"} ->
+         \* the function argument is resolved with GetFunGlobal (a symbol names a binding of the current PACKAGE)
+         LET typed == f.s \in {"map", "select", "reject"}
+             fa == IF typed THEN args[2] ELSE args[1]
+             lis == IF f.s \in {"any?", "all?"} THEN args[2] ELSE args[3]
+             fv == IF fa.t = "sym"
+                   THEN (IF fa.p = "" /\ fa.s \notin {"true", "false"} /\ PkgHas(s, s.pkg, fa.s) THEN NameFun(s.pkgs[s.pkg].syms[fa.s], fa)
+                         ELSE IF fa.p \notin {"", ":"} /\ PkgHas(s, fa.p, fa.s) THEN NameFun(s.pkgs[fa.p].syms[fa.s], fa) ELSE VNil)
+                   ELSE fa IN
+         IF typed /\ ~(args[1].t = "sym" /\ args[1].s = "list" /\ args[1].p = "") THEN Fail(s, env)      \* (only 'list is modelled)
+         ELSE IF ~IsFun(fv) \/ (f.s \notin {"any?", "all?"} /\ FunKind(s, fv) # "fun") THEN Fail(s, env)
+         ELSE IF lis.t # "list" THEN Fail(s, env)
+         ELSE [s EXCEPT !.k = Append(@, [t |-> "hof", name |-> f.s, f |-> fv, items |-> IF f.s = "foldr" THEN [j \in 1..Len(lis.c) |-> lis.c[Len(lis.c) + 1 - j]] ELSE lis.c,
+                                         j |-> 0, acc |-> IF f.s \in {"foldl", "foldr"} THEN args[2] ELSE VNil, out |-> <<>>, env |-> env]),
+                        !.ctl = [mode |-> "hofstep"]]
     [] f.s = "gensym" ->
          \* a fresh symbol gen<counter>; the harness prints the counter with the real zero padding
          [s EXCEPT !.ngen = @ + 1, !.ctl = Ret([VSym("gen" \o ToString(s.ngen + 1)) EXCEPT !.n = s.ngen + 1])]
@@ -553,6 +608,25 @@ MxStep(s) ==
   ELSE LET r == SymValue(s, form.c[1], x.env) IN
        IF ~r.ok \/ ~IsFun(r.v) \/ FunKind(s, r.v) # "macro" THEN [s EXCEPT !.k = Pop(@), !.ctl = Ret(form)]
        ELSE [s EXCEPT !.ctl = [mode |-> "dispatch", f |-> NameFun(r.v, form.c[1]), args |-> Rest(form.c), env |-> x.env]]
+
+\* map / foldl / foldr / select / reject call the function once per element (env.FunCall);
+\* any? / all? EVALUATE the form (pred element) for each element
+CanHofStep(s) == s.ctl.mode = "hofstep"
+HofStep(s) ==
+  LET h == Top(s.k)  n == Len(h.items) IN
+  IF h.j >= n
+  THEN LET r == CASE h.name = "map" -> VQList(h.out)
+                  [] h.name \in {"select", "reject"} -> VQList(h.out)
+                  [] h.name \in {"foldl", "foldr"} -> h.acc
+                  [] h.name = "all?" -> VTrue
+                  [] h.name = "any?" -> VFalse IN
+       [s EXCEPT !.k = Pop(@), !.ctl = Ret(r)]
+  ELSE LET x == h.items[h.j + 1]
+           h2 == [h EXCEPT !.j = @ + 1] IN
+       IF h.name \in {"any?", "all?"}
+       THEN [s EXCEPT !.k = SetTop(@, h2), !.ctl = Eval(VList(<<h.f, x>>), h.env)]
+       ELSE LET fargs == CASE h.name = "foldl" -> <<h.acc, x>> [] h.name = "foldr" -> <<x, h.acc>> [] OTHER -> <<x>> IN
+            [s EXCEPT !.k = SetTop(@, h2), !.ctl = [mode |-> "dispatch", f |-> h.f, args |-> fargs, env |-> h.env]]
 
 \* body of a lambda: non-last forms are evaluated for effect; the last form puts the frame in its terminal state
 CanBodyStep(s) == s.ctl.mode = "bodystep"
@@ -809,6 +883,15 @@ DoReturn(s) ==
     [] c.t = "cells" ->
          IF IsErr(v) THEN LeaveCells(s, c)
          ELSE [s EXCEPT !.k = SetTop(@, [c EXCEPT !.vals = Append(@, v)]), !.ctl = [mode |-> "cellstep"]]
+    [] c.t = "hof" ->
+         IF IsErr(v) THEN [s EXCEPT !.k = Pop(@)]
+         ELSE LET x == c.items[c.j] IN
+              (CASE c.name = "map" -> [s EXCEPT !.k = SetTop(@, [c EXCEPT !.out = Append(@, v)]), !.ctl = [mode |-> "hofstep"]]
+                [] c.name = "select" -> [s EXCEPT !.k = SetTop(@, [c EXCEPT !.out = IF Truthy(v) THEN Append(@, x) ELSE @]), !.ctl = [mode |-> "hofstep"]]
+                [] c.name = "reject" -> [s EXCEPT !.k = SetTop(@, [c EXCEPT !.out = IF Truthy(v) THEN @ ELSE Append(@, x)]), !.ctl = [mode |-> "hofstep"]]
+                [] c.name \in {"foldl", "foldr"} -> [s EXCEPT !.k = SetTop(@, [c EXCEPT !.acc = v]), !.ctl = [mode |-> "hofstep"]]
+                [] c.name = "all?" -> IF Truthy(v) THEN [s EXCEPT !.ctl = [mode |-> "hofstep"]] ELSE [s EXCEPT !.k = Pop(@), !.ctl = Ret(VFalse)]
+                [] c.name = "any?" -> IF Truthy(v) THEN [s EXCEPT !.k = Pop(@), !.ctl = Ret(v)] ELSE [s EXCEPT !.ctl = [mode |-> "hofstep"]])
     [] c.t = "mx" ->
          IF IsErr(v) THEN [s EXCEPT !.k = Pop(@)]
          ELSE IF v.t # "macexp" THEN Fail([s EXCEPT !.k = Pop(@)], c.env)
@@ -869,6 +952,7 @@ Unwind(s) ==
     [] c.t = "body" -> Unwind([s EXCEPT !.k = Pop(@), !.pkg = c.outer])
     [] c.t = "load" -> Unwind([s EXCEPT !.k = Pop(@), !.pkg = c.saved])
     [] c.t = "mx" -> Unwind([s EXCEPT !.k = Pop(@)])
+    [] c.t = "hof" -> Unwind([s EXCEPT !.k = Pop(@)])
     [] c.t = "op" -> Unwind([s EXCEPT !.k = Pop(@), !.conds = IF c.op = "handler-bind" /\ c.pushed /\ c.phase = "hcall" THEN Pop(@) ELSE @])
     [] OTHER -> [s EXCEPT !.k = Pop(@)]
 DoPanic(s) ==
@@ -889,6 +973,7 @@ Next == \/ /\ CanNext(m) /\ m' = NextForm(m)
         \/ CanCall(m)     /\ m' = DoCall(m)
         \/ CanBodyStep(m) /\ m' = BodyStep(m)
         \/ CanMxStep(m)   /\ m' = MxStep(m)
+        \/ CanHofStep(m)  /\ m' = HofStep(m)
         \/ CanOpStep(m)   /\ m' = OpStep(m)
         \/ CanReturn(m)   /\ m' = DoReturn(m)
         \/ CanPanic(m)    /\ m' = DoPanic(m)
